@@ -218,6 +218,9 @@ example : Ev.tx 100000001 exMsg ∈ ((ex3.advance 100000001).process false true)
     (.advance _ (.process true true (.send _ (.send _ .init)))) (by decide) exMsg false (by intro h; cases h)
     (by decide +kernel) (by decide +kernel) (by decide +kernel) (by decide +kernel) (by decide +kernel)).2
 
+/-- the same with `process true true` and an empty inbox: this is `ex4` of Isotp/Props/C15.lean -/
+example : (ex3.advance 100000001).inbox = [] ∧ Ev.tx 100000001 exMsg ∈ ex4.log := by decide +kernel
+
 /-- before the window has passed the same pass leaves the frame parked -/
 example : ((ex3.advance 50000000).process false true).1.standby = some exMsg ∧
     (txEvents ((ex3.advance 50000000).process false true).1.log).length = 1 := by decide +kernel
@@ -273,6 +276,12 @@ theorem free_window_nothing_parked (s : State) (doRx : Bool) (hv : s.cfg.valid =
     obtain ⟨⟨e, he, _⟩, _⟩ := window_slides_without_rx s doRx hv hinv hp hoof hexc (by rw [hs]; rfl)
     rw [hfree] at he
     cases he
+
+/-- non-vacuity: the pass that releases the parked frame of `ex3` one full window after it was itself
+    sent … has an in-window slot; a pass with nothing to send on a fresh layer has none -/
+example : ex0.cfg.valid = true ∧ LimInv ex0.rl ∧ ParkInv ex0 ∧ (ex0.process false true).2.2 = false ∧
+    (ex0.process false true).1.exc = none ∧ (ex0.process false true).1.rl.slots = [] :=
+  ⟨by decide, limInv_session .init, parkInv_init _ _, by decide +kernel, by decide +kernel, by decide +kernel⟩
 
 /-- `ParkInv` is an invariant of sessions; it is what makes a parked frame releasable -/
 theorem parkInv_invariant :
